@@ -1,7 +1,7 @@
 #!/bin/bash
 # tools/mutants_new.sh <outdir> <suffix> <ids...>: verify new seeded changes under <outdir>/<id>/<k>, copy the confirmed ones to seeded/<id>-<suffix><k>, run the own-property check
 out=$1; suf=$2; shift 2
-cd /verif
+cd "$(dirname "$0")/.."
 for id in "$@"; do for d in $out/$id/*/; do
   [ -f $d/patch.diff ] || continue
   k=$(basename $d); n=$id-$suf$k
